@@ -34,7 +34,9 @@ pub fn outlined_attach_fragments(tracks: &mut HashMap<u32, Mp4Track>, default_sa
         forall|id: u32| #[trigger] final(tracks)@.dom().contains(id) ==> final(tracks)@[id].trak == old(tracks)@[id].trak
             && (old(tracks)@[id].trafs@.len() == old(tracks)@[id].moof_offsets@.len()
                     ==> final(tracks)@[id].trafs@.len() == final(tracks)@[id].moof_offsets@.len())
-            && (moofs_parsed(moofs@) && trafs_parsed(old(tracks)@[id].trafs@) ==> trafs_parsed(final(tracks)@[id].trafs@)),
+            && (moofs_parsed(moofs@) && trafs_parsed(old(tracks)@[id].trafs@) ==> trafs_parsed(final(tracks)@[id].trafs@))
+            && (final(tracks)@[id].trafs@.len() > old(tracks)@[id].trafs@.len() ==> final(tracks)@[id].default_sample_duration == default_sample_duration)
+            && (final(tracks)@[id].trafs@.len() == old(tracks)@[id].trafs@.len() ==> final(tracks)@[id].default_sample_duration == old(tracks)@[id].default_sample_duration),
 { unimplemented!() }
 
 /// mdhd.rs `decode_utf16(lang.iter().cloned()).map(|r| r.unwrap_or(REPLACEMENT_CHARACTER)).collect::<String>()`:
